@@ -594,7 +594,7 @@ def slice_is_empty(ctx):
     return Bool(simp(BufLoc(ctx.ex, ctx.st, ctx.args[0]).val.len == BV(0, 64)))
 
 
-@contract(r'^(?:core|std|alloc)::slice::<impl \[u8\]>::to_vec$|^<\[u8\] as ToOwned>::to_owned$|^core::slice::<impl \[u8\]>::to_owned$|^<str as ToOwned>::to_owned$|^<str as ToString>::to_string$|^<(?:std::string::)?String as From<&str>>::from$|^<&str as Into<(?:std::string::)?String>>::into$|^<str as Into<String>>::into|^<(?:std::string::)?String as ToString>::to_string$|^<&str as ToString>::to_string$|^core::str::<impl str>::to_string$|^core::str::<impl str>::to_owned$|^std::string::<impl ToString for str>::to_string$')
+@contract(r'^(?:core|std|alloc)::slice::<impl \[u8\]>::to_vec$|^<\[u8\] as ToOwned>::to_owned$|^core::slice::<impl \[u8\]>::to_owned$|^<str as ToOwned>::to_owned$|^<str as ToString>::to_string$|^<(?:std::string::)?String as From<&str>>::from$|^<&str as Into<(?:std::string::)?String>>::into$|^<str as Into<String>>::into|^<(?:std::string::)?String as (?:std::string::)?ToString>::to_string$|^<&?str as (?:std::string::)?ToString>::to_string$|^core::str::<impl str>::to_string$|^core::str::<impl str>::to_owned$|^std::string::<impl ToString for str>::to_string$')
 def slice_to_vec(ctx):
     b = BufLoc(ctx.ex, ctx.st, ctx.args[0]).val
     k = 'vec' if 'u8' in ctx.callee else 'string'
@@ -1204,6 +1204,8 @@ def get_map(ex, st, ref, val_ty=None):
 def hashmap_entry(ctx):
     ex, st = ctx.ex, ctx.st
     mref, key = ctx.args[0], ctx.args[1]
+    if not isinstance(key, Int):
+        return NotImplemented
     h, a = generic_args(strip_turbofish(ctx.callee.rsplit('::', 1)[0]))
     val_ty = a[1] if len(a) > 1 else None
     m = get_map(ex, st, mref, val_ty)
@@ -1265,6 +1267,8 @@ def occupied_remove(ctx):
 def hashmap_insert(ctx):
     ex, st = ctx.ex, ctx.st
     mref, key, val = ctx.args
+    if not isinstance(key, Int):
+        return NotImplemented
     h, a = generic_args(strip_turbofish(ctx.callee.rsplit('::', 1)[0]))
     val_ty = a[1] if len(a) > 1 else None
     m = get_map(ex, st, mref, val_ty)
@@ -1283,11 +1287,11 @@ def hashmap_remove(ctx):
     ex, st = ctx.ex, ctx.st
     mref = ctx.args[0]
     key = ex.deref(st, ctx.args[1])
+    if not isinstance(key, Int):
+        return NotImplemented
     h, a = generic_args(strip_turbofish(re.sub(r'::remove.*$', '', ctx.callee)))
     val_ty = a[1] if len(a) > 1 else None
     m = get_map(ex, st, mref, val_ty)
-    if not isinstance(key, Int):
-        return NotImplemented
     p, old, m2 = map_lookup(ex, st, m, key.t, val_ty)
     ex.store(st, mref.cell, mref.path, m2.with_entry(key.t, z3.BoolVal(False), None))
     st.trace.append(('map.remove', m.name, key.t))
